@@ -437,6 +437,8 @@ static void run_server(void)
 				if (seen[a]++) failk("response", "extra-fields", label, (char *)cap.p, cap.n, "automatic field %s twice", an[a]);
 				/* Connection may legitimately replace the caller's (close echo); the others must not duplicate */
 				if (a != 3 && want_has(&plan.w, an[a]) && st != ST_ERROR) failk("response", "extra-fields", flabel, (char *)cap.p, cap.n, "automatic %s although the caller supplied one", an[a]);
+				if (a == 1 && code == 204)
+					failk("response", "auto-content-length-on-204", flabel, (char *)cap.p, cap.n, "automatic Content-Length on a 204 response (documented only where a body is allowed)");
 				if (a == 1) {
 					char lb[24]; snprintf(lb, sizeof lb, "%zu", m.blen);
 					if (!bodiless && m.framing == R9_F_CL && strcmp((char *)m.f[i].val, lb)) failk("response", "wrong-auto-content-length", flabel, (char *)cap.p, cap.n, "Content-Length %s for %zu body bytes", m.f[i].val, m.blen);
